@@ -48,6 +48,12 @@ pub fn run_c15(ctx: &mut Ctx) {
                 Ok(Some(g)) if !same(g, u) => ctx.violation("lookup:other-unit", &format!("get_unit({id:?}) returns {} instead of {}", g.name(), u.name()), json!({"unit": u.name(), "id": id})),
                 Ok(Some(_)) => {}
             }
+            // the defaulting lookups (get_unit_or_default, <&Unit>::from(&str)) find it as well
+            match catch(|| (libhaystack::units::get_unit_or_default(id), <&'static Unit>::from(id.as_str()))) {
+                Ok((a, b)) if same(a, u) && same(b, u) => {}
+                Ok((a, b)) => ctx.violation("lookup:or-default:other-unit", &format!("get_unit_or_default({id:?}) / <&Unit>::from give {} / {} instead of {}", a.name(), b.name(), u.name()), json!({"unit": u.name(), "id": id})),
+                Err(p) => ctx.violation(&format!("lookup:or-default:{}", panic_sig(&p)), &p.msg, json!({"id": id})),
+            }
             // decode by this id through both codecs
             for (mi, x) in MAGNITUDES.iter().enumerate() {
                 let x = *x;
@@ -142,6 +148,12 @@ pub fn run_c15(ctx: &mut Ctx) {
             Ok(None) => {}
             Ok(Some(u)) => ctx.violation("lookup:non-id-found", &format!("get_unit({s:?}) returns {} although no unit lists that identifier", u.name()), json!({"string": s})),
             Err(p) => ctx.violation(&format!("lookup:{}", panic_sig(&p)), &p.msg, json!({"string": s})),
+        }
+        // ... and the defaulting lookup gives the default (nameless) unit, not some real one
+        match catch(|| libhaystack::units::get_unit_or_default(&s)) {
+            Ok(u) if u.ids.is_empty() => {}
+            Ok(u) => ctx.violation("lookup:non-id-found", &format!("get_unit_or_default({s:?}) returns {} although no unit lists that identifier", u.name()), json!({"string": s})),
+            Err(p) => ctx.violation(&format!("lookup:or-default:{}", panic_sig(&p)), &p.msg, json!({"string": s})),
         }
         if ctx.wants_sample("non-id") && i > 5 {
             ctx.sample("non-id", json!(s));
